@@ -173,11 +173,11 @@ def gen(rng, knobs):
     faults = sorted(rng.sample(range(5, 120), rng.choice([0, 0, 0, 1, 2]))) if backend == "sql" and not flood else []
     limits = rng.choice([None, None, {"ip": {"EVENT": "3/s", "REQ": "4/s"}}, {"global": {"EVENT": "2/s"}, "ip": {"REQ": "2/s,5/m"}}])
     return {"backend": backend, "preload": pre, "faults": faults, "p_buffered": rng.choice([0.0, 0.3, 0.7, 1.0]),
-            "rate_limits": limits, "via_api": rng.random() < 0.5,
+            "rate_limits": limits, "via_api": rng.random() < 0.5, "same_address": rng.random() < 0.3,
             "message_timeout": rng.choice([1800, 1800, 30, 5]),
             "clients": [{"script": hostile, "slow": flood or rng.random() < 0.2, "close_fails": rng.random() < 0.2,
                          "origin": rng.choice(["", "", "https://client.example", "http://bad.actor", "HTTP://BAD.ACTOR"])},
-                        {"script": good, "slow": rng.random() < 0.2}],
+                        {"script": good, "slow": rng.random() < 0.2, "late": rng.random() < 0.3}],
             "storage_opts": histgen.pool_knob(rng, backend),
             "sched": {**histgen.stall_knob(rng), "client": rng.choice([0.5, 1.0, 3.0]), "sql": rng.choice([0.3, 1.0, 3.0]),
                       "exec": rng.choice([0.2, 1.0]), "writer": rng.choice([0.2, 1.0]),
@@ -203,6 +203,9 @@ def run(case, sim):
     for i, c in enumerate(clients):
         c["origin"] = case["clients"][i].get("origin", "")
         c["close_fails"] = case["clients"][i].get("close_fails", False)
+        c["late"] = case["clients"][i].get("late", False)
+        if case.get("same_address"):
+            c["addr"] = "10.9.9.9"          # both connections behind one NAT / proxy address
     w = relay.RelayWorld(sim, backend, clients, preload=case.get("preload"), p_buffered=case.get("p_buffered", 0.0),
                          storage_opts=case.get("storage_opts"),
                          rate_limits=case.get("rate_limits"),
@@ -296,6 +299,17 @@ def run(case, sim):
                                  "detail": {"event": str(m[1])[:120], "oks": n}})
                 else:
                     answered.append((c.idx, fr["i"]))
+    # "never affects other connections": the only sleeps in the handler are penalties; a connection that has
+    # itself earned none yet (no refused or malformed frame of its own so far) is never put to sleep
+    for c in w.clients[1:]:
+        tx = [(s_, parse(t)) for s_, t in c.transcript if not t.startswith("__CLOSE__")]
+        bad = sorted(s_ for s_, m_ in tx if isinstance(m_, list) and m_ and (
+            m_[0] == "NOTICE" or (m_[0] == "OK" and len(m_) > 2 and m_[2] is not True)))
+        first_bad = bad[0] if bad else 10 ** 12
+        early = [(s_, d_) for s_, t_, d_ in getattr(w, "handler_sleeps", []) if t_ is c.task and d_ > 0 and s_ < first_bad]
+        if early and not case.get("faults"):
+            viol.append({"cls": "good-connection-penalised", "sig": "good-connection-penalised|%s" % backend,
+                         "detail": {"slept_seconds": early[0][1], "same_address": bool(case.get("same_address"))}})
     if w.final.get("registry_end"):
         viol.append({"cls": "registry-leak", "sig": "registry-leak|" + backend,
                      "detail": {"left": {str(k): v for k, v in w.final["registry_end"].items()}}})
